@@ -131,45 +131,72 @@ Definition ensure_bp (s : st) (lk : list (option nat)) : st * bool * list (optio
 Definition send_cur (s : st) (ms : list item) : st :=
   match cur s with Some b => push_inq s b ms | None => s end.
 
-(* the tail of the loop body: a failed lookup fails the message (returnError) *)
-Definition forward (s : st) (m : item) (lk : list (option nat)) : st :=
-  let '(s1, ok, _) := ensure_bp s lk in if ok then send_cur s1 [m] else s1.
+(* The loop body of partitionProducer.dispatch is written as a composition of named elementary operations; the
+   message being handled stays at the head of [q] until the operation that consumes it. *)
+Definition pop (s : st) : st := set_q s (tl (q s)).
+
+(* the tail of the loop body: obtain a broker worker if there is none and send the head of q to it; a failed
+   lookup fails the message (returnError) *)
+Definition fwd_head (s : st) (lk : list (option nat)) : st :=
+  match q s with
+  | [] => s
+  | m :: _ => let '(s1, ok, _) := ensure_bp s lk in if ok then pop (send_cur s1 [m]) else pop s1
+  end.
+
+(* newHighWatermark(r) up to `pp.brokerProducer = nil`: fin to the current worker, expectChaser, new watermark *)
+Definition mark (s : st) (b r : nat) : st :=
+  set_cur (set_hwm (set_lv (push_inq s b [Fin (r - 1)]) (set_chs r true (lv s))) r) None.
+
+(* a fin of level r has come back *)
+Definition fin_seen (s : st) (r : nat) : st := set_lv s (set_chs r false (lv s)).
+
+(* a message below the watermark is parked *)
+Definition park_head (s : st) (r : nat) (m : item) : st :=
+  pop (set_lv s (set_lbuf r (lbuf (get_lvl r (lv s)) ++ [m]) (lv s))).
+
+(* one iteration of the loop of flushRetryBuffers: highWatermark--, updateLeader if needed, send the level's buffer *)
+Definition flush1 (s : st) (h' : nat) (lk : list (option nat)) : st * list (option nat) :=
+  let s0 := set_hwm s h' in
+  let '(s1, ok, lk1) := ensure_bp s0 lk in
+  let s2 := if ok then send_cur s1 (lbuf (get_lvl h' (lv s1))) else s1 in
+  (set_lv s2 (set_lbuf h' [] (lv s2)), lk1).
 
 (* flushRetryBuffers entered with highWatermark = h (fuel = h) *)
 Fixpoint flush (s : st) (h : nat) (lk : list (option nat)) : st :=
   match h with
   | O => set_crash s CR_LEVEL
   | S h' =>
-      let s0 := set_hwm s h' in
-      let '(s1, ok, lk1) := ensure_bp s0 lk in
-      let s2 := if ok then send_cur s1 (lbuf (get_lvl h' (lv s1))) else s1 in
-      let s3 := set_lv s2 (set_lbuf h' [] (lv s2)) in
+      let '(s3, lk1) := flush1 s h' lk in
       if chs (get_lvl h' (lv s)) || (h' =? 0) then s3 else flush s3 h' lk1
   end.
 
-(* one iteration of the loop of partitionProducer.dispatch on message m *)
-Definition pp_handle (mx : nat) (s0 : st) (m : item) (lk : list (option nat)) : st :=
-  let s := match cur s0 with
-           | Some b => if ab (get_bp s0 b) then set_cur s0 None else s0
-           | None => s0
-           end in
-  let r := retries_of m in
-  if hwm s <? r then
-    if mx <? r then set_crash s CR_LEVEL
-    else match cur s with
-         | None => set_crash s CR_NIL_BP
-         | Some b =>
-             let s1 := push_inq s b [Fin (r - 1)] in
-             let s2 := set_cur (set_hwm (set_lv s1 (set_chs r true (lv s1))) r) None in
-             forward s2 m lk
-         end
-  else if 0 <? hwm s then
-    if r <? hwm s then
-      if is_fin m then set_lv s (set_chs r false (lv s))
-      else set_lv s (set_lbuf r (lbuf (get_lvl r (lv s)) ++ [m]) (lv s))
-    else if is_fin m then flush (set_lv s (set_chs (hwm s) false (lv s))) (hwm s) lk
-    else forward s m lk
-  else forward s m lk.
+(* the abandoned poll at the top of the loop body (the channel exists only when Retry.Max = 0) *)
+Definition abandon_check (s : st) : st :=
+  match cur s with
+  | Some b => if ab (get_bp s b) then set_cur s None else s
+  | None => s
+  end.
+
+(* one iteration of the loop of partitionProducer.dispatch on the message at the head of q *)
+Definition pp_handle (mx : nat) (s0 : st) (lk : list (option nat)) : st :=
+  match q s0 with
+  | [] => s0
+  | m :: _ =>
+      let s := abandon_check s0 in
+      let r := retries_of m in
+      if hwm s <? r then
+        if mx <? r then set_crash s CR_LEVEL
+        else match cur s with
+             | None => set_crash s CR_NIL_BP
+             | Some b => fwd_head (mark s b r) lk
+             end
+      else if 0 <? hwm s then
+        if r <? hwm s then
+          if is_fin m then fin_seen (pop s) r else park_head s r m
+        else if is_fin m then flush (fin_seen (pop s) (hwm s)) (hwm s) lk
+        else fwd_head s lk
+      else fwd_head s lk
+  end.
 
 (* ---------------------------------------------------------------- broker worker *)
 
@@ -292,7 +319,7 @@ Definition raw_step (mx : nat) (s : st) (c : choice) : st :=
                 | Some (Data _ _) => set_q s (remove_nth n (q s))
                 | _ => s
                 end
-  | CPp lk => match q s with m :: r => pp_handle mx (set_q s r) m lk | [] => s end
+  | CPp lk => pp_handle mx s lk
   | CRecv b d => bp_recv mx s b d
   | CFlush b => bp_flush s b
   | CAnswer b v app => answer s b v app
